@@ -10,9 +10,50 @@
 
 namespace SpecialAccessHelpers {
 
+namespace {
+// Records whether the arrow access itself published a typed result (string /
+// float / double / ... members do, most integer paths only return the value).
+struct ArrowTypedResultSink {
+    ExpressionEvaluator &target;
+    bool published = false;
+    void set_last_typed_result(const TypedValue &value) {
+        published = true;
+        target.set_last_typed_result(value);
+    }
+};
+
+int64_t evaluate_arrow_access_impl(
+    const ASTNode *node, Interpreter &interpreter,
+    ArrowTypedResultSink &evaluator,
+    std::function<int64_t(const ASTNode *)> evaluate_expression_func,
+    std::function<Variable(const Variable &, const std::string &)>
+        get_struct_member_func);
+} // namespace
+
 int64_t evaluate_arrow_access(
     const ASTNode *node, Interpreter &interpreter,
     ExpressionEvaluator &evaluator,
+    std::function<int64_t(const ASTNode *)> evaluate_expression_func,
+    std::function<Variable(const Variable &, const std::string &)>
+        get_struct_member_func) {
+    ArrowTypedResultSink sink{evaluator};
+    int64_t result = evaluate_arrow_access_impl(
+        node, interpreter, sink, evaluate_expression_func,
+        get_struct_member_func);
+    if (!sink.published) {
+        // The typed result of an arrow access is consumed by
+        // consume_numeric_typed_value; a path that only returns the number
+        // must not leave the string / double of an earlier access behind
+        // (p->w followed by p->lg would read the double again).
+        evaluator.set_last_typed_result(TypedValue(result, InferredType()));
+    }
+    return result;
+}
+
+namespace {
+int64_t evaluate_arrow_access_impl(
+    const ASTNode *node, Interpreter &interpreter,
+    ArrowTypedResultSink &evaluator,
     std::function<int64_t(const ASTNode *)> evaluate_expression_func,
     std::function<Variable(const Variable &, const std::string &)>
         get_struct_member_func) {
@@ -1096,6 +1137,7 @@ variable_access:
         return member_var.value;
     }
 }
+} // namespace
 
 int64_t evaluate_member_array_access(
     const ASTNode *node, Interpreter &interpreter,
